@@ -56,8 +56,35 @@ func tryReplay(e *Engine, prop string, f failure, rp *Replay) {
 	rp.FailingInputFound = failed
 }
 
-// per-property scenario replays (used when no function-specific template exists)
+// per-property scenario replays (used when no function-specific template exists): a scenario test from
+// /verif/replay_templates is run on the real code; with no model-derived parameters it performs the
+// small-scope search described in the template.
+type scenario struct {
+	file   string
+	pkgDir string
+}
+
+var propScenario = map[string][]scenario{
+	"C18": {{"c18_maxsize_test.go", "."}},
+}
+
 var propReplay = map[string]replayTemplate{}
+
+func init() {
+	for prop, scs := range propScenario {
+		scs := scs
+		propReplay[prop] = func(e *Engine, f failure, model map[string]string) (string, string, string) {
+			for _, sc := range scs {
+				data, err := os.ReadFile(filepath.Join("/verif/replay_templates", sc.file))
+				if err != nil {
+					continue
+				}
+				return string(data), sc.pkgDir, "scenario template " + sc.file + " (small-scope search on the real code)"
+			}
+			return "", "", ""
+		}
+	}
+}
 
 // runOverlayTest runs an in-package test (package dir relative to /repo) through an overlay.
 // Returns output and whether the test FAILED (i.e. the violation was reproduced on the real code).
